@@ -463,7 +463,77 @@ fn one_field(ctx: &mut Ctx, fld: &Field, pool_size: usize, ntriples: usize) {
     }
 }
 
+/// Many small fields, few operations each: the inverse different (its common denominator needs a field
+/// whose inverse trace matrix has incomparable denominators — about one small cubic in forty), the
+/// inverse of ideals above the small primes (ramified and index primes included), and membership of
+/// elements that are members by construction (generator, generator·w_j, combinations of the basis) in
+/// principal ideals and ideals (p, x) — orders with a non-power integral basis are the interesting ones.
+fn sweep_field(ctx: &mut Ctx, fld: &Field, rounds: usize) {
+    let t = &fld.tab;
+    let n = t.mt.deg();
+    let disc = catch_unwind(AssertUnwindSafe(|| fld.order.discriminant(&fld.theta))).unwrap_or_else(|_| BigInt::zero());
+    do_invdiff(ctx, t, &disc);
+    let pr = |x: &[BigInt]| rows_of(|| ideal_rows(&Ideal::principal(x, &t.mt)));
+    let sum = |a: &Rows, b: &Rows| rows_of(|| ideal_rows(&(&mk_ideal(a, t) + &mk_ideal(b, t))));
+    for round in 0..rounds {
+        let x: Vec<BigInt> = (0..n).map(|_| BigInt::from(ctx.rng.range(-5, 5))).collect();
+        if x.iter().all(|c| c.is_zero()) {
+            continue;
+        }
+        let px = match pr(&x) {
+            Some(r) if !r.is_empty() => r,
+            _ => continue,
+        };
+        let ideal = if round % 2 == 0 {
+            px
+        } else {
+            let mut m = vec![BigInt::zero(); n];
+            m[0] = BigInt::from([2u32, 3, 5, 2, 7, 4][ctx.rng.below(6) as usize]);
+            match pr(&m).and_then(|pm| sum(&pm, &px)) {
+                Some(r) if !r.is_empty() => r,
+                _ => continue,
+            }
+        };
+        // members by construction
+        do_contains(ctx, t, &ideal, &x);
+        let j = ctx.rng.below(n as u64) as usize;
+        let mut w = vec![BigInt::zero(); n];
+        w[j] = BigInt::one();
+        if let Ok(xw) = catch_unwind(AssertUnwindSafe(|| t.mt.mul(&x, &w))) {
+            do_contains(ctx, t, &ideal, &xw);
+        }
+        let c = comb(ctx, &ideal, n);
+        do_contains(ctx, t, &ideal, &c);
+        if round % 3 == 0 {
+            do_inv(ctx, t, &ideal);
+            do_capz(ctx, t, &ideal);
+            do_norm(ctx, t, &ideal);
+        }
+    }
+}
+
 pub fn generate(ctx: &mut Ctx) {
+    // fields with a non-power integral basis (Dedekind's cubic and relatives: 2 divides the index for
+    // every generator) and one whose inverse trace matrix has denominators 4, 5, 10
+    for v in [vec![-8i64, -2, -1, 1], vec![8, -2, 1, 1], vec![-4, -2, -2, 1], vec![-12, 1, 1, 1], vec![10, -7, 0, 1]] {
+        if let Some(fld) = make_field(&ints(&v)) {
+            sweep_field(ctx, &fld, ctx.pick(60, 400));
+        }
+    }
+    let mut left = ctx.pick(90, 900);
+    let mut tries = 0;
+    while left > 0 && tries < 100000 {
+        tries += 1;
+        let deg = if ctx.rng.chance(1, 5) { 4 } else { 3 };
+        let mut c: Vec<i64> = (0..deg).map(|_| ctx.rng.range(-6, 6)).collect();
+        c.push(1);
+        if irreducible_mod_some_prime(&c) && small_discriminant(&c) {
+            if let Some(fld) = make_field(&ints(&c)) {
+                sweep_field(ctx, &fld, 4);
+            }
+            left -= 1;
+        }
+    }
     let (nq, nc, nr) = (ctx.pick(12, 60), ctx.pick(10, 40), ctx.pick(8, 120));
     let list = fields(ctx, nq, nc, nr);
     let (pool_size, ntriples) = (ctx.pick(9, 14), ctx.pick(12, 60));
